@@ -1,6 +1,7 @@
 CONSTANT WSweep = "struct"
 SPECIFICATION Spec
 INVARIANT Accounting
+INVARIANT NeverKept
 INVARIANT Balanced
 INVARIANT OutIsWire
 INVARIANT OutIsValid
